@@ -183,7 +183,9 @@ type World struct {
 	PrivAny    map[string]*anypb.Any
 	Roots      string
 	frozen     map[string]*configpb.SignedTreeHead
-	srcSTH     map[string]*ct.SignedTreeHead // "<kind>/<size>"
+	badSig     map[string][]*configpb.SignedTreeHead // "<key kind>/<spelling>": the concrete readings of one spelling of "does not verify"
+	sigs       map[string][]byte                     // genuine signatures made so far, by (key, signed fields)
+	srcSTH     map[string]*ct.SignedTreeHead         // "<kind>/<size>"
 	srcRaw     map[string][]byte
 	mu         sync.Mutex
 }
@@ -196,7 +198,7 @@ func NewWorld(maxSize, frozenSize int) (*World, error) {
 	}
 	w := &World{Repo: repo, MaxSize: maxSize, FrozenSize: frozenSize, Tree: ref.NewTree(),
 		Keys: map[string]crypto.Signer{}, PubDER: map[string][]byte{}, PrivAny: map[string]*anypb.Any{},
-		frozen: map[string]*configpb.SignedTreeHead{}, srcSTH: map[string]*ct.SignedTreeHead{}, srcRaw: map[string][]byte{}}
+		frozen: map[string]*configpb.SignedTreeHead{}, badSig: map[string][]*configpb.SignedTreeHead{}, sigs: map[string][]byte{}, srcSTH: map[string]*ct.SignedTreeHead{}, srcRaw: map[string][]byte{}}
 	w.Roots = filepath.Join(repo, "trillian/testdata/fake-ca.cert")
 	if err := checkSpellings(); err != nil {
 		return nil, err
@@ -206,7 +208,10 @@ func NewWorld(maxSize, frozenSize int) (*World, error) {
 	}
 	w.Keys["ecdsa"] = pki.NewKey("p256")
 	w.Keys["rsa"] = pki.NewKey("rsa2048")
-	for _, k := range []string{"ecdsa", "rsa"} {
+	// a second key of each kind: the other key a frozen STH may be signed with / checked under
+	w.Keys["ecdsa2"] = pki.NewKey("p256")
+	w.Keys["rsa2"] = pki.NewKey("rsa2048")
+	for _, k := range []string{"ecdsa", "rsa", "ecdsa2", "rsa2"} {
 		pub, err := x509.MarshalPKIXPublicKey(w.Keys[k].Public())
 		if err != nil {
 			return nil, err
@@ -256,6 +261,18 @@ func NewWorld(maxSize, frozenSize int) (*World, error) {
 			Sha256RootHash: root, TreeHeadSignature: ds}
 		w.frozen[k+"/badHashLen"] = &configpb.SignedTreeHead{TreeSize: int64(frozenSize), Timestamp: frozenTimestamp,
 			Sha256RootHash: root[:31], TreeHeadSignature: ds}
+		// the spellings of "does not verify under the public key": ONE input of the verification differs from what was
+		// signed, everything else (in particular the signature bytes) is that of the genuine STH
+		for _, sp := range BadSigSpellings {
+			for v := 0; v < altReadings; v++ {
+				ts, size, rt, sig, err := w.alteredSTH(k, sp, v, frozenTimestamp, uint64(frozenSize), root, ds)
+				if err != nil {
+					return nil, err
+				}
+				w.badSig[k+"/"+sp] = append(w.badSig[k+"/"+sp], &configpb.SignedTreeHead{TreeSize: int64(size), Timestamp: int64(ts),
+					Sha256RootHash: rt, TreeHeadSignature: sig})
+			}
+		}
 		// source-log STHs a mirror's storage may hold
 		for n := 0; n <= maxSize; n++ {
 			ts := uint64(sourceTimestamp + n)
@@ -446,7 +463,7 @@ func (w *World) MaterializeSpelled(c Cfg, variant, wsp, dsp int) *configpb.LogCo
 		m.PrivateKey = w.PrivAny[kk]
 	}
 	if c.FrozenSth != "absent" {
-		m.FrozenSth = w.frozen[w.sthKeyKind(c)+"/"+c.FrozenSth]
+		m.FrozenSth = w.frozenFor(w.sthKeyKind(c), c.FrozenSth, variant)
 	}
 	m.NotAfterStart, m.NotAfterLimit = c.Start.Proto(wsp), c.Limit.Proto(wsp)
 	switch c.Ekus {
@@ -527,6 +544,118 @@ func (w *World) MaterializeMulti(m Multi, variant, sp int) *configpb.LogMultiCon
 		}
 	}
 	return out
+}
+
+// BadSigSpellings are the named spellings of the class "badSig" (BadSigSpellings of LogConfig.tla): the component of
+// the verification that is not what the genuine signature was made over.
+var BadSigSpellings = []string{"badSig:timestamp", "badSig:size", "badSig:root", "badSig:sig", "badSig:key"}
+
+// altReadings is the number of concrete readings of "another value" per component.
+const altReadings = 4
+
+// altTimestamp / altSize / altRoot / garbageSig: the concrete readings of "not the signed value" - next to it on either
+// side, far away (another 32-bit half), the zero value; for the root one bit at either end, the zero hash, the root of
+// another tree size; for the signature one bit of the value, one byte less, nothing at all, another declared hash.
+func altTimestamp(ts uint64, v int) uint64 {
+	return []uint64{ts + 1, ts - 1, ts + 1<<32, 0}[v%altReadings]
+}
+
+func altSize(size uint64, v int) uint64 {
+	return []uint64{size + 1, size - 1, size + 1<<32, 0}[v%altReadings]
+}
+
+func (w *World) altRoot(root []byte, size uint64, v int) []byte {
+	r := append([]byte{}, root...)
+	switch v % altReadings {
+	case 0:
+		r[len(r)-1] ^= 0x01
+	case 1:
+		r[0] ^= 0x80
+	case 2:
+		r = make([]byte, len(root))
+	default:
+		r = append([]byte{}, w.Tree.Root(int(size)+1)...)
+	}
+	return r
+}
+
+func garbageSig(ds []byte, v int) []byte {
+	g := append([]byte{}, ds...)
+	switch v % altReadings {
+	case 0:
+		g[len(g)-1] ^= 0x01
+	case 1:
+		g = g[:len(g)-1]
+	case 2:
+		g = []byte{}
+	default:
+		g[0] = 2 // sha1 declared, signed over sha256
+	}
+	return g
+}
+
+// signSTH is THE signature of a key over (timestamp, size, root): made once per world, the same bytes ever after (an ECDSA
+// signature made twice differs; a memo keyed by signature bytes has to see the same bytes).
+func (w *World) signSTH(key string, ts, size uint64, root []byte) ([]byte, error) {
+	id := fmt.Sprintf("%s/%d/%d/%x", key, ts, size, root)
+	w.mu.Lock()
+	defer w.mu.Unlock()
+	if ds, ok := w.sigs[id]; ok {
+		return ds, nil
+	}
+	ds, err := ref.Sign(w.Keys[key], ref.STHSignatureInput(ts, size, root))
+	if err != nil {
+		return nil, err
+	}
+	if err := ref.Verify(w.Keys[key].Public(), ref.STHSignatureInput(ts, size, root), ds); err != nil {
+		return nil, fmt.Errorf("harness: a fresh signature does not verify: %v", err)
+	}
+	w.sigs[id] = ds
+	return ds, nil
+}
+
+// alteredSTH: the genuine STH (ts, size, root, ds) of key kind k with the component named by the spelling altered.
+func (w *World) alteredSTH(k, spelling string, v int, ts, size uint64, root, ds []byte) (uint64, uint64, []byte, []byte, error) {
+	switch spelling {
+	case "badSig:timestamp":
+		ts = altTimestamp(ts, v)
+	case "badSig:size":
+		size = altSize(size, v)
+	case "badSig:root":
+		root = w.altRoot(root, size, v)
+	case "badSig:sig":
+		ds = garbageSig(ds, v)
+	case "badSig:key":
+		other, err := w.signSTH(k+"2", ts, size, root)
+		if err != nil {
+			return 0, 0, nil, nil, err
+		}
+		ds = other
+	default:
+		return 0, 0, nil, nil, fmt.Errorf("unknown spelling %q", spelling)
+	}
+	// the oracle of the oracle: none of these verifies under the key
+	if ref.Verify(w.Keys[k].Public(), ref.STHSignatureInput(ts, size, root), ds) == nil {
+		return 0, 0, nil, nil, fmt.Errorf("harness: altered STH (%s, reading %d) verifies", spelling, v)
+	}
+	return ts, size, root, ds, nil
+}
+
+// frozenFor: the frozen STH of a state of LogConfig.tla.  The class "badSig" stands for its spellings: the variant picks
+// one (and the tree-size-plus-one STH of the first version of this harness); a named spelling is read in altReadings ways.
+func (w *World) frozenFor(kind, state string, variant int) *configpb.SignedTreeHead {
+	if state == "badSig" {
+		n := len(BadSigSpellings) + 1
+		if variant%n == len(BadSigSpellings) {
+			return w.frozen[kind+"/badSig"]
+		}
+		state = BadSigSpellings[variant%n]
+		variant /= n
+	}
+	if alts, ok := w.badSig[kind+"/"+state]; ok {
+		return alts[variant%len(alts)]
+	}
+	return w.frozen[kind+"/"+state]
 }
 
 // ---------------------------------------------------------------- fakes
